@@ -1,6 +1,7 @@
 import Bxh.Props.C07
 import Bxh.Proofs.ExecFrame
 import Bxh.Proofs.ExecBlock
+import Bxh.Proofs.RouterLemmas
 /-!
 # C02 — IBTPs are accepted in index order, exactly once per ordered service pair
 Theorems about `Bxh.Exec` (model of `InterchainManager.HandleIBTP`, `checkIBTP`, `ProcessIBTP` and
@@ -92,6 +93,25 @@ theorem C02_accept_needs_next_index (env : Env) (l : Led) (i : Ibtp) (ck : Check
             · cases h
               simp_all
       · split at h <;> cases h
+
+/-! ### the delivery set reaches the destination's pier -/
+
+/-- **every destination's pier is handed exactly the delivery set of the block**: for every block the model executes, what the
+interchain router (`classify`, behind both `PutBlockAndMeta` and `GetInterchainTxWrappers`) gives pier `d` as transactions is the
+list `InterchainMeta.Counter[d]` — the same positions in the block, in the same order, each once, with its flags; a pier the
+counter does not name gets none.  (The one-to-many notification map is read back from state; that it has one entry per chain is
+the hypothesis `hm`.) -/
+theorem C02_router_hands_each_pier_its_delivery_set (cfg : Cfg) (n : Node) (txs : List (Tx × Bool)) (d : String)
+    (hm : Router.Keyed (execBlock cfg n txs).2.multiCounter) :
+    (Router.deliver (execBlock cfg n txs).2 d).txs = KV.getD (execBlock cfg n txs).2.counter d [] := by
+  rw [Router.deliver_spec _ (Router.applyTxs_counter_keyed ..) (Router.getTimeoutMap_keyed ..) hm]
+
+-- non-vacuity: two destinations, one of them also told about a timeout
+example :
+    let o : BlockOut := { height := 9, rcpts := [], counter := [("c2", [⟨0, true, false⟩, ⟨2, true, false⟩]), ("c3", [⟨1, true, false⟩])],
+                          timeoutCounter := [("c1", [.single ⟨⟨"1356", "c1", "s1"⟩, ⟨"1356", "c2", "s1"⟩, 4⟩])], multiCounter := [] }
+    (Router.deliver o "c2").txs = [⟨0, true, false⟩, ⟨2, true, false⟩] ∧ (Router.deliver o "c3").txs = [⟨1, true, false⟩] ∧
+    (Router.deliver o "c1").txs = [] ∧ (Router.deliver o "c1").timeouts.length = 1 ∧ Router.deliver o "c9" = {} := by decide
 
 end Bxh.Props.C02
 
